@@ -66,3 +66,8 @@ package actionlint
 //@ func (*ExprSemanticsChecker).UpdateInputs
 //@   body_calls [C05] (*ObjectType).Merge iff !(len(o.Props) == 0 && o.Mapped == nil)
 //@   at_call [C05] (*ObjectType).Merge: ty == o && other == iface(ty0)
+
+// C05: a step whose id contains a placeholder can have any name at run time, so the steps object is opened
+// (references to unknown step ids are not reported any more) - exactly when the id contains a ${{ }}
+//@ func (*RuleExpression).VisitStep
+//@   body_calls [C05] (*ObjectType).Loose iff n.ID != nil && hasexpr(n.ID.Value)
